@@ -61,6 +61,8 @@ struct Recorded {
     snaps: Vec<Snap>,
     /// J_0 ..= J_n
     rows: Vec<i64>,
+    /// the live handler went on (and was destroyed by a C12 finding) after the last recorded message
+    truncated: bool,
 }
 
 fn new_rt() -> tokio::runtime::Runtime {
@@ -90,7 +92,7 @@ fn run_live(rt: &tokio::runtime::Runtime, env: &Env, zone0: &Zone, fixed: Option
     if s0.to_zone() != *zone0 {
         return Err("initial snapshot differs from the generated zone".into());
     }
-    let mut rec = Recorded { zone0: zone0.clone(), msgs: vec![], wires: vec![], acks: vec![], snaps: vec![s0], rows: vec![row_count(rt, &h)] };
+    let mut rec = Recorded { zone0: zone0.clone(), msgs: vec![], wires: vec![], acks: vec![], snaps: vec![s0], rows: vec![row_count(rt, &h)], truncated: false };
     let mut rng = rng;
     let n = fixed.map(|f| f.len()).unwrap_or(len);
     for i in 0..n {
@@ -106,6 +108,7 @@ fn run_live(rt: &tokio::runtime::Runtime, env: &Env, zone0: &Zone, fixed: Option
                 if r.chance(1, 2) {
                     m.pre.clear(); // more accepted, multi-row updates
                 }
+                no_apex_delete_name(&mut m);
                 m
             }
         };
@@ -119,10 +122,16 @@ fn run_live(rt: &tokio::runtime::Runtime, env: &Env, zone0: &Zone, fixed: Option
         if r == NOTAUTH || r == REFUSED {
             return Err(format!("harness message rejected by the TSIG gate: {}", rcode_name(r)));
         }
+        let after = snapshot(rt, &h);
+        if after.to_zone().rrset(&apex(), T_SOA).is_none() || after.to_zone().rrset(&apex(), T_NS).is_none() {
+            // C12 finding (apex delete-name destroys the zone): not recorded, history ends here
+            rec.truncated = true;
+            break;
+        }
         rec.msgs.push(msg);
         rec.wires.push(wire);
         rec.acks.push(r);
-        rec.snaps.push(snapshot(rt, &h));
+        rec.snaps.push(after);
         rec.rows.push(row_count(rt, &h));
     }
     Ok((rec, h))
@@ -239,7 +248,8 @@ fn judge(rec: &Recorded, k: i64, r: &Recovered, out: &mut Vec<Finding>) {
         };
         push("recovered-state", symptom, obs.clone());
     }
-    // serial never below anything acknowledged before the stop
+    // serial never below the serial acknowledged last before the stop. (If the live handler itself
+    // moved the serial backwards with message m — C12's RFC 1982 finding — the step is not judged.)
     let acked_upto = match class {
         "schema-setup" | "inside-initial-dump" => 0,
         "message-boundary" => m,
@@ -247,12 +257,11 @@ fn judge(rec: &Recorded, k: i64, r: &Recovered, out: &mut Vec<Finding>) {
     };
     let z = snap.to_zone();
     if z.rrset(&apex(), T_SOA).is_some() {
-        for j in 0..=acked_upto {
-            let a = rec.snaps[j].serial;
-            if snap.serial != a && !serial_gt(snap.serial, a) {
-                push("recovered-serial", "serial-below-acknowledged", json!({"recovered_serial": snap.serial, "acknowledged": a, "after_message": j}));
-                break;
-            }
+        let a = rec.snaps[acked_upto].serial;
+        let live_next = rec.snaps[m.min(rec.snaps.len() - 1)].serial;
+        let live_monotone = live_next == a || serial_gt(live_next, a);
+        if live_monotone && snap.serial != a && !serial_gt(snap.serial, a) {
+            push("recovered-serial", "serial-below-acknowledged", json!({"recovered_serial": snap.serial, "acknowledged": a, "after_message": acked_upto}));
         }
     }
 }
@@ -440,7 +449,7 @@ fn check_history(w: &Work, rep: &mut Reporter, zone0: &Zone, fixed: Option<&[Upd
     }
 
     // ---- "as if no restart": continuation on the never-stopped handler vs recovered at k = J_n
-    if only.is_none() || only.map(|o| o.0) == Some("continuation") {
+    if !rec.truncated && (only.is_none() || only.map(|o| o.0) == Some("continuation")) {
         make_cut(&w.live, &w.cut, jn);
         if let Recovered::Ok(s_rec, h_rec) = recover(&w.rt, &w.cut) {
             let cat_live = catalog_for(&live_h);
@@ -461,6 +470,7 @@ fn check_history(w: &Work, rep: &mut Reporter, zone0: &Zone, fixed: Option<&[Upd
                         if rng.chance(1, 2) {
                             m.pre.clear();
                         }
+                        no_apex_delete_name(&mut m);
                         m
                     }
                 };
@@ -587,6 +597,12 @@ fn main() {
     std::process::exit(rep.finish().min(0));
 }
 
+/// "delete all RRsets from the apex" destroys the zone (C12 finding, SOA and NS deleted too); the
+/// intermediate states it creates are not C14's subject, so C14 histories do not contain it
+fn no_apex_delete_name(m: &mut UpdMsg) {
+    m.upd.retain(|rr| !(rr.class == C_ANY && rr.rtype == T_ANY && fold(&rr.owner) == apex()));
+}
+
 /// C14 keeps away from C12's serial-overflow finding
 fn fix_serial(z: &mut Zone, r: &mut Rng) {
     let s = r.range(1, 100_000) as u32;
@@ -610,7 +626,7 @@ fn schema_case(w: &Work, rep: &mut Reporter, zone0: &Zone, steps: usize) -> Vec<
     w.live.write_zone(&zone_text(zone0));
     let Ok(h) = w.rt.block_on(w.live.open("z.jrnl", AxfrPolicy::Deny)) else { return out };
     let s0 = snapshot(&w.rt, &h);
-    let rec = Recorded { zone0: zone0.clone(), msgs: vec![], wires: vec![], acks: vec![], snaps: vec![s0], rows: vec![i64::MAX] };
+    let rec = Recorded { zone0: zone0.clone(), msgs: vec![], wires: vec![], acks: vec![], snaps: vec![s0], rows: vec![i64::MAX], truncated: false };
     let mut fs = Vec::new();
     // k = 0 < J_0 selects the schema-setup window
     judge(&rec, 0, &r, &mut fs);
